@@ -6,6 +6,16 @@ SEQ_ASSUME = [
     "virtual clock: Instant::now() in calloop is replaced by the harness clock (hook H1); the blocking wait is replaced by a zero-timeout wait plus clock advance (hook H2)",
 ]
 
+T_ASSUME = [
+    "sequentially consistent interleavings at the granularity of the yield points compiled into calloop (hook H3) plus harness operation boundaries; steps between two points, and every std/polling/kernel call, are atomic",
+    "exactly one controlled thread runs at a time (baton passing); the loop thread never blocks in the kernel: the wait seam marks it blocked and it is enabled iff the epoll fd is readable",
+    "relaxed-memory effects are not explored (every cross-thread access in the anchored code is SeqCst, Acquire/Release followed by a syscall, a mutex, std mpsc or the kernel)",
+]
+SCHED_RULE = ("every combination of worker-thread programs (free tape choices) x every schedule of the loop thread and the worker threads "
+              "up to the preemption bound reported per driver (iterative context bounding; 'exhaustive_within_bounds' says whether every level up to the "
+              "bound completed) is executed on real OS threads under the controlled scheduler; sequential drivers enumerate histories as for the world "
+              "drivers. states = distinct complete schedules; distinct = distinct end observations; non-trivial = a context switch happened and a callback/poll ran")
+
 WORLD_RULE = ("every history of top-level operations up to the depth bound over the driver's alphabet, with every placement of "
               "in-callback handle operations up to the deviation bound, is executed against the real EventLoop (choice-tape re-execution "
               "DFS, iterative deviation bounding, optional state-hash pruning) and judged step by step by the reference model. "
@@ -43,6 +53,37 @@ TABLE = {
         "drivers": [
             {"driver": "disable", "required_clauses": ["callback-legitimacy", "dispatch-owed", "timer-fire", "oneshot"]},
             {"driver": "batch", "required_clauses": ["callback-legitimacy", "dispatch-owed"]},
+        ],
+    },
+    "C03": {
+        "level": "model_checking", "rule": SCHED_RULE, "assumptions": T_ASSUME,
+        "drivers": [
+            {"driver": "ping-mt", "required_clauses": ["ping-delivery", "ping-close"],
+             "opts": {"quick": {"threads": 2, "len": 2, "preempt": 2}, "thorough": {"threads": 2, "len": 3, "preempt": 3, "wall": 900}}},
+            {"driver": "ping-seq", "required_clauses": ["callback-legitimacy", "dispatch-owed", "epoll-table"]},
+        ],
+    },
+    "C04": {
+        "level": "model_checking", "rule": SCHED_RULE, "assumptions": T_ASSUME,
+        "drivers": [
+            {"driver": "chan-mt", "required_clauses": ["channel-delivery", "channel-closed"],
+             "opts": {"quick": {"threads": 2, "len": 2, "preempt": 2}, "thorough": {"threads": 2, "len": 3, "preempt": 3, "wall": 900}}},
+            {"driver": "chan-seq", "required_clauses": ["callback-legitimacy", "dispatch-owed"]},
+        ],
+    },
+    "C10": {
+        "level": "model_checking", "rule": SCHED_RULE, "assumptions": T_ASSUME,
+        "drivers": [
+            {"driver": "exec-mt", "required_clauses": ["executor-wake", "executor-drop"],
+             "opts": {"quick": {"threads": 2, "len": 2, "preempt": 2}, "thorough": {"threads": 2, "len": 3, "preempt": 3, "wall": 900}}},
+        ],
+    },
+    "C11": {
+        "level": "model_checking", "rule": SCHED_RULE, "assumptions": T_ASSUME + ["polling::Poller::notify/wait are atomic steps (dependency code is not instrumented)"],
+        "drivers": [
+            {"driver": "wakeup", "required_clauses": ["wakeup"], "opts": {"quick": {"preempt": 100}, "thorough": {"preempt": 100}}, "shards": 1},
+            {"driver": "run", "required_clauses": ["run-stop"], "opts": {"quick": {"preempt": 100}, "thorough": {"preempt": 100}}, "shards": 1},
+            {"driver": "block_on", "required_clauses": ["block-on"], "opts": {"quick": {"preempt": 100}, "thorough": {"preempt": 100}}, "shards": 1},
         ],
     },
     "C20": {
